@@ -144,6 +144,7 @@ type world struct {
 	thorough bool
 	heavy    bool
 
+	rolled   bool // two data page files existed at some GC
 	ntGC     bool
 	ntReopen bool
 }
@@ -209,20 +210,22 @@ func (w *world) put(m msg) {
 	w.msgs[w.appended] = m
 }
 
-func countPages(dir string) int {
-	n := 0
-	for _, sub := range []string{"data", "index"} {
+// countPages returns the number of data and index page files of the queue.
+func countPages(dir string) (data, index int) {
+	count := func(sub string) int {
+		n := 0
 		es, err := os.ReadDir(filepath.Join(dir, sub))
 		if err != nil {
-			continue
+			return 0
 		}
 		for _, e := range es {
 			if strings.HasSuffix(e.Name(), ".bat") {
 				n++
 			}
 		}
+		return n
 	}
-	return n
+	return count("data"), count("index")
 }
 
 // ---- oracle ------------------------------------------------------------------------------------
@@ -401,7 +404,7 @@ func (w *world) opBigAppend() {
 		w.t.Skip("no big append left")
 	}
 	w.bigLeft--
-	m := w.newMsg(rapid.IntRange(30<<20, 70<<20).Draw(w.t, "bigSize"))
+	m := w.newMsg(rapid.IntRange(35<<20, 70<<20).Draw(w.t, "bigSize"))
 	w.put(m)
 	w.class("big-append")
 	w.logf("bigAppend %s -> appended=%d", m, w.appended)
@@ -567,9 +570,19 @@ func (w *world) gc() int {
 	for _, g := range w.openGroups() {
 		distinct[g.ack] = true
 	}
-	before := countPages(w.dir)
+	d0, i0 := countPages(w.dir)
+	if d0 >= 2 {
+		w.rolled = true
+	}
 	w.fq.Queue().GC()
-	removed := before - countPages(w.dir)
+	d1, i1 := countPages(w.dir)
+	removed := d0 - d1 + i0 - i1
+	if d1 < d0 {
+		w.class("gc-removed-data-page")
+	}
+	if i1 < i0 {
+		w.class("gc-removed-index-page")
+	}
 	if removed > 0 {
 		w.class("gc-removed-page")
 		if len(distinct) >= 2 {
@@ -800,24 +813,30 @@ func (w *world) opCatchUp() {
 // opCatchUpAll: every group that can consume catches up, each leaving a different tail behind
 // (replicas progress at different speeds), so that the groups end with different acks.
 func (w *world) opCatchUpAll() {
+	if !w.catchUpAll(3) {
+		w.t.Skip("nothing to catch up")
+	}
+}
+
+func (w *world) catchUpAll(maxBehind int) bool {
 	did := false
 	for _, g := range w.openGroups() {
 		if g.paused || g.consumed >= w.appended || w.tooFar(g) {
 			continue
 		}
-		leave := int64(rapid.IntRange(0, 2).Draw(w.t, "leaveUnconsumed"))
+		leave := int64(rapid.IntRange(0, maxBehind-1).Draw(w.t, "leaveUnconsumed"))
 		for g.consumed < w.appended-leave {
 			w.consumeOnce(g, false)
 		}
-		if k := g.consumed - int64(rapid.IntRange(0, 3).Draw(w.t, "leaveUnacked")); k >= g.ack {
+		if k := g.consumed - int64(rapid.IntRange(0, maxBehind).Draw(w.t, "leaveUnacked")); k >= g.ack {
 			w.ack(g, k, "catch up all")
 		}
 		did = true
 	}
-	if !did {
-		w.t.Skip("nothing to catch up")
+	if did {
+		w.class("catch-up-all")
 	}
-	w.class("catch-up-all")
+	return did
 }
 
 // ---- the state machine -------------------------------------------------------------------------
@@ -845,7 +864,7 @@ func runHistory(t *rapid.T, test string, thorough, heavy bool) {
 	w.limit = rapid.SampledFrom([]int64{dataPageBytes, 0, 1 << 20}).Draw(t, "pageSizeArg")
 	w.salt = rapid.Uint64().Draw(t, "salt")
 	if heavy {
-		w.bigLeft = rapid.IntRange(3, 6).Draw(t, "bigAppends")
+		w.bigLeft = rapid.IntRange(4, 6).Draw(t, "bigAppends") // >= 4 x 35 MiB: at least one roll-over
 		w.bulkLeft = rapid.IntRange(0, 1).Draw(t, "bulkAppends")
 	}
 	w.open()
@@ -888,6 +907,7 @@ func runHistory(t *rapid.T, test string, thorough, heavy bool) {
 		"":            step(func() { w.check("after step") }),
 	}
 	if heavy {
+		delete(actions, "pause") // a paused group pins the queue ack until the next reopen
 		actions["bigAppend"] = step(w.opBigAppend)
 		actions["bigAppend2"] = step(w.opBigAppend)
 		actions["bulkAppend"] = step(w.opBulkAppend)
@@ -897,6 +917,20 @@ func runHistory(t *rapid.T, test string, thorough, heavy bool) {
 	t.Repeat(actions)
 	t.Repeat(actions) // a second budget of steps: histories of ~60 operations
 	w.t = t
+
+	// roll-over machine: the big appends the history did not use, each followed by the groups
+	// catching up at different speeds and a Sync+GC
+	for heavy && w.bigLeft > 0 {
+		w.opBigAppend()
+		w.check("after big append")
+		if len(w.openGroups()) == 0 {
+			continue
+		}
+		w.catchUpAll(1)
+		w.check("after catch up")
+		w.opTick()
+		w.check("after sync+gc")
+	}
 
 	// closing sequence: everything must survive one more reopen, and every group that can still
 	// consume is handed its next sequence
@@ -915,7 +949,13 @@ func runHistory(t *rapid.T, test string, thorough, heavy bool) {
 
 	heavyNT := true
 	if heavy {
-		heavyNT = w.classes["gc-removed-page"] > 0
+		if d, _ := countPages(w.dir); d >= 2 {
+			w.rolled = true
+		}
+		heavyNT = w.rolled || w.classes["bulk-append"] > 0
+		if w.rolled {
+			w.class("data-page-roll-over")
+		}
 	}
 	for c, k := range w.classes {
 		ev.Class(test, c, k)
@@ -948,4 +988,49 @@ func TestGroupHistoryRollOver(t *testing.T) {
 		t.Skip("thorough tier only (set C06_ROLLOVER=1 to run by hand)")
 	}
 	rapid.Check(t, func(t *rapid.T) { runHistory(t, "TestGroupHistoryRollOver", true, true) })
+}
+
+// TestQueueAckBarrier: the read barrier of the underlying queue on its own (no groups): whatever
+// value is offered to SetAcknowledgedSeq, the barrier only moves forward and never beyond the
+// appended position; everything above it stays readable across GC and reopen.
+func TestQueueAckBarrier(t *testing.T) {
+	rapid.Check(t, func(t *rapid.T) {
+		root, err := os.MkdirTemp("", "c06q-")
+		if err != nil {
+			t.Fatalf("harness: %v", err)
+		}
+		w := &world{t: t, root: root, dir: filepath.Join(root, "wal"), limit: dataPageBytes,
+			appended: -1, qack: -1, prevQAck: -1, msgs: map[int64]msg{}, groups: map[string]*grp{}, classes: map[string]int{}}
+		defer func() {
+			if w.fq != nil {
+				w.fq.Close()
+			}
+			_ = os.RemoveAll(root)
+		}()
+		w.salt = rapid.Uint64().Draw(t, "salt")
+		w.open()
+		moved, refused := 0, 0
+		step := func(f func()) func(*rapid.T) {
+			return func(t *rapid.T) { w.t = t; f() }
+		}
+		t.Repeat(map[string]func(*rapid.T){
+			"append": step(w.opAppend),
+			"setAck": step(func() {
+				k := rapid.Int64Range(-2, w.appended+3).Draw(w.t, "ackSeq")
+				w.fq.Queue().SetAcknowledgedSeq(k)
+				if k > w.qack && k <= w.appended {
+					w.qack = k
+					moved++
+				} else {
+					refused++
+				}
+				w.logf("queue.SetAcknowledgedSeq %d -> queueAck=%d", k, w.qack)
+			}),
+			"gc":     step(w.opGC),
+			"sync":   step(func() { w.fq.Sync(); w.logf("sync (no groups)") }), // no groups: must not move anything
+			"reopen": step(w.opReopen),
+			"":       step(func() { w.check("after step") }),
+		})
+		ev.Case("TestQueueAckBarrier", strings.Join(w.ops, ";"), moved > 0 && refused > 0, nil, nil)
+	})
 }
